@@ -109,6 +109,8 @@ class PyMachine:
             o["imem"] = bytes(ext[len(ext) - 256:]).hex()
             o["ram_crc"] = zlib.crc32(bytes(rb(a) & 0xFF for a in range(0xB8000, 0xB8200))
                                       + bytes(rb(a) & 0xFF for a in range(0xB8F00, 0xBA010)))
+            o["rom_crc"] = zlib.crc32(bytes(rb(a) & 0xFF for a in range(0xC0000, 0xC0400)))
+            o["lcdwin_crc"] = zlib.crc32(bytes(ext[0x2000:0x2010]) + bytes(ext[0xA000:0xA010]))
             o["call_depth"] = int(emu.call_depth)
             o["kol"] = rb(IMEM + 0xF0) & 0xFF
             o["koh"] = rb(IMEM + 0xF1) & 0xFF
